@@ -535,7 +535,7 @@ class HostConnection(object):
                     if connection.orphaned_threshold_reached:
                         # a shutdown() that ran since the check above has already emptied the trash:
                         # close the replaced connection here instead of parking it
-                        if connection.in_flight == len(connection.orphaned_request_ids):
+                        if connection.in_flight == len(connection.orphaned_request_ids) or self.is_shutdown:
                             connection.close()
                         else:
                             self._trash.add(connection)
